@@ -204,3 +204,47 @@ Proof.
   repeat (destruct H as [H|H]; [inversion H; subst; split; [vm_compute; tauto|reflexivity]|]).
   contradiction.
 Qed.
+
+(* --- pending per-scan inputs ---------------------------------------------------- *)
+From YV Require Import Capi.Pending.
+
+Lemma pending_table_ok_now : pending_table_ok = true.
+Proof. vm_compute. reflexivity. Qed.
+
+(* after any whole-buffer scanning call, accepted or refused, no module data is pending *)
+Lemma scan_consumes_data_lemma : forall s k, whole_buffer k = true -> p_data (scan_next s k) = None.
+Proof.
+  intros s k H. destruct k; try discriminate H; unfold scan_next; cbn [whole_buffer p_data];
+    (replace (consumes_data _) with true by (vm_compute; reflexivity)); reflexivity.
+Qed.
+
+Definition sets_data (st : pstep) : bool := match st with PSetData _ _ => true | _ => false end.
+Fixpoint prun (s : pstate) (l : list pstep) : pstate :=
+  match l with [] => s | st :: r => prun (pstep_next s st) r end.
+
+Lemma no_data_preserved : forall l s,
+  p_data s = None -> forallb (fun st => negb (sets_data st)) l = true -> p_data (prun s l) = None.
+Proof.
+  induction l as [|st r IH]; intros s Hs Hl; [exact Hs|].
+  cbn [forallb] in Hl. apply andb_true_iff in Hl. destruct Hl as [H1 H2].
+  cbn [prun]. apply IH; [|exact H2].
+  destruct st as [d a|o a|g|k inv d o g]; cbn [sets_data negb] in H1; try discriminate H1; cbn [pstep_next].
+  - destruct (p_block s); [exact Hs|exact Hs].
+  - exact Hs.
+  - unfold scan_next. destruct (whole_buffer k); cbn [p_data]; [destruct (consumes_data _); [reflexivity|exact Hs]|exact Hs].
+Qed.
+
+(* no stale data: for every history, a whole-buffer scan that follows another one
+   without a set_module_data in between observes no module data *)
+Lemma no_stale_data_lemma : forall h1 k1 h2 k2 s,
+  whole_buffer k1 = true -> whole_buffer k2 = true ->
+  forallb (fun st => negb (sets_data st)) h2 = true ->
+  let s' := prun (scan_next (prun s h1) k1) h2 in
+  snd (fst (scan_obs s' k2)) = 0%N.
+Proof.
+  intros h1 k1 h2 k2 s H1 H2 Hh s'.
+  assert (Hd : p_data s' = None).
+  { apply no_data_preserved; [now apply scan_consumes_data_lemma|exact Hh]. }
+  unfold scan_obs. rewrite H2. destruct (p_block s'); [reflexivity|]. cbn [fst snd].
+  rewrite Hd. destruct (reads_data _); reflexivity.
+Qed.
